@@ -95,6 +95,10 @@ def cases(ctx):
     for bi, (fn, rd, ol) in enumerate(big):
         if S == (3 + bi) % N:
             yield {"k": "pbkdf2", "fn": fn, "password": gen.rbytes(r, 8).hex(), "salt": gen.rbytes(r, 8).hex(), "rounds": rd, "len": ol}
+    # outputs longer than 1024 hash blocks (the block counter must keep counting)
+    for bi2, (fn, ol) in enumerate((("sha1", 20 * 1024 + 1), ("sha1", 20 * 2048 + 7), ("sha256", 32 * 1024 + 1), ("sha512", 64 * 1024 + 1))):
+        if S == (9 + bi2) % N:
+            yield {"k": "pbkdf2", "fn": fn, "password": gen.rbytes(r, 8).hex(), "salt": gen.rbytes(r, 8).hex(), "rounds": 1, "len": ol, "long_output": True}
     # password / salt lengths around the HMAC block sizes, for every PRF
     for fn in ("sha1", "sha256", "sha512"):
         for pl in [0, 1, 55, 56, 63, 64, 65, 111, 112, 127, 128, 129, 200]:
@@ -164,6 +168,28 @@ def cases(ctx):
                 for shape in ([m.hex(), ""], ["", m.hex()], [m[:cut].hex(), "", m[cut:].hex()], [m[:cut].hex(), m[cut:].hex(), "", ""], [""], ["", ""]):
                     yield {"k": "chunks", "kind": kind, "chunks": shape, "reverse": rev, "reuse": True, "empty_chunks": True}
                     yield {"k": "chunks", "kind": kind, "chunks": shape, "reverse": rev, "empty_chunks": True}
+    # finalize_into / finalize_into_reset into an output array that is not zeroed, for messages whose digest STARTS or ENDS with a zero
+    # byte (searched with hashlib; one message in 256 each) and for ordinary ones
+    if S % 4 == 1 or t:
+        import hashlib
+
+        def dg(kind, m_):
+            h1 = hashlib.sha256(m_).digest()
+            return hashlib.sha256(h1).digest() if kind == "sha256d" else hashlib.new("ripemd160", h1).digest() if kind == "hash160" else h1
+
+        for kind in ("sha256d", "sha256r", "hash160"):
+            found = {}
+            for ctr in range(4000):
+                m_ = b"zero-digest-search-%d" % ctr
+                d_ = dg(kind, m_)
+                for nm, ok_ in (("lead0", d_[0] == 0), ("trail0", d_[-1] == 0), ("lead00", d_[:2] == b"\x00\x00"), ("plain", True)):
+                    if ok_ and nm not in found:
+                        found[nm] = m_
+                if len(found) == 4:
+                    break
+            for nm, m_ in found.items():
+                for rev in (False, True):
+                    yield {"k": "chunks", "kind": kind + "_into", "chunks": [m_[:5].hex(), m_[5:].hex()], "reverse": rev, "into": nm}
     # clone / clone_from between adapter objects whose reverse flags differ
     for L in [0, 1, 55, 64, 65, 130]:
         k += 1
@@ -262,7 +288,12 @@ def judge(ctx, case):
             if r["ok"]["hash"] != exp:
                 ctx.viol("PBKDF2-%s with a library-chosen salt differs from the reference computed with the reported salt" % case["fn"], {})
             return
-        if case["rounds"] > 100000:
+        if case.get("long_output"):
+            import hashlib
+
+            ctx.hit("pbkdf2_output>1024_blocks")
+            exp = hashlib.pbkdf2_hmac(case["fn"], bytes.fromhex(case["password"]), bytes.fromhex(case["salt"]), 1, case["len"]).hex()
+        elif case["rounds"] > 100000:
             import hashlib
 
             ctx.hit("pbkdf2_rounds>10M")
@@ -280,13 +311,25 @@ def judge(ctx, case):
             ctx.nontrivial()
         r = ctx.call({"op": "digest_chunks", "kind": case["kind"], "chunks": case["chunks"], "reverse": case["reverse"], "reuse": case.get("reuse", False)})
         ctx.ev()
-        fn = {"sha256d": hashes.sha256d, "sha256r": hashes.sha256, "hash160": hashes.hash160, "hash160_new": hashes.hash160, "sha256d_chain": hashes.sha256d, "sha256r_chain": hashes.sha256, "hash160_chain": hashes.hash160, "signing_sha256": hashes.sha256, "signing_sha256d": hashes.sha256d}[case["kind"]]
+        fn = {"sha256d": hashes.sha256d, "sha256r": hashes.sha256, "hash160": hashes.hash160, "hash160_new": hashes.hash160, "sha256d_into": hashes.sha256d, "sha256r_into": hashes.sha256, "hash160_into": hashes.hash160, "sha256d_chain": hashes.sha256d, "sha256r_chain": hashes.sha256, "hash160_chain": hashes.hash160, "signing_sha256": hashes.sha256, "signing_sha256d": hashes.sha256d}[case["kind"]]
         exp = fn(m)
         if case["reverse"]:
             exp = exp[::-1]
             ctx.hit("reversed")
         if case.get("empty_chunks"):
             ctx.hit("empty_chunks")
+        if case.get("into"):
+            ctx.hit("finalize_into_dirty_array")
+            base = case["kind"][:-5]
+            fn2 = {"sha256d": hashes.sha256d, "sha256r": hashes.sha256, "hash160": hashes.hash160}[base]
+            e2 = fn2(m)
+            if case["reverse"]:
+                e2 = e2[::-1]
+            ri = ctx.call({"op": "digest_chunks", "kind": case["kind"], "chunks": case["chunks"], "reverse": case["reverse"]})
+            ctx.ev()
+            if ri.get("ok") != (e2 + e2).hex():
+                ctx.viol("streaming adapter %s (%s output): finalize_into(_reset) into a non-zero output array differs from the reference (digest shape: %s)" % (base, "reversed" if case["reverse"] else "plain", case["into"]), {"got": str(ri.get("ok", ri))[:200], "exp": (e2 + e2).hex()})
+            return
         if case.get("cloned"):
             ctx.hit("cloned_adapter")
             rc = ctx.call({"op": "digest_chunks", "kind": case["kind"], "chunks": case["chunks"], "reverse": case["reverse"], "cloned": True})
